@@ -114,7 +114,8 @@ def check(tier: str) -> Result:
                     f"key-dependent fields {dep[:6]}" if dep else "no field other than `key` depends on the key argument: the generator is a constant function of it")
     # environments sampling inside reset (no generator attribute)
     for ea in analyses(tree):
-        has_gen = bool(ea.vfg.model.candidates(ea.cls, "generator")) or bool(ea.vfg.model.candidates(ea.cls, "_generator"))
+        gen_quals = {g.qual for g in gens}
+        has_gen = any(c.qual in gen_quals for cs in ea.vfg.model.collaborator_attrs(ea.cls).values() for c in cs)
         if has_gen and ea.cls.module.name.rsplit(".", 1)[0] not in non_state:
             continue
         site, fn = env_site(ea, "reset")
